@@ -334,7 +334,8 @@ _amend("C17", "technique", "Lean 4 theorems on formatter arithmetic + planted-fa
        "Lean 4 theorems: formatter arithmetic, every syntax error of rule and alias lexer + parser well placed on every line; planted-fault search on impl for run-time errors")
 CLAIMED["C06"]["text"] = CLAIMED["C06"]["text"] + (" FRONT END (Props/C06Parse, over the lexer/parser port): a string of white space only, and a string `ws* ;; anything` - line breaks "
        "and rule text after the `;;` included, since a comment runs to the end of the string - parse to NO rule, for every such string (lexLine_blank / lexLine_comment / "
-       "parseLine_comment); the runner skips a None, so such lines leave every word untouched.")
+       "parseLine_comment); and over the runner model, for any parser that answers None on the lines in question: if every line of every group parses to None the parsed groups "
+       "are empty and applying them returns every phrase as it was (Props/C06Run.no_rule_lines_identity).")
 CLAIMED["C06"]["technique"] = CLAIMED["C06"]["technique"] + " + lexer/parser theorem: blank and comment-only strings are no rule"
 
 CLAIMED["C12"]["text"] = CLAIMED["C12"]["text"] + (" METATHESIS (Props/C12Meta, over the port of the Metathesis arm of transform): when the captured elements are segments at "
